@@ -27,14 +27,14 @@ func main() {
 		}
 
 		c.Family("calibrate", nCalibrate, calibrate)
-		c.Family("addr.roundtrip", c.N(3850, 770000), famAddrRoundTrip(c))
-		c.Family("segwit.grid", 17*(gridMaxLen+1)*c.N(1, 20), famSegwitGrid(c))
+		c.Family("addr.roundtrip", c.N(3850, 38500), famAddrRoundTrip(c))
+		c.Family("segwit.grid", 17*(gridMaxLen+1)*c.N(1, 3), famSegwitGrid(c))
 		c.Exhaustive("witness version 0..16 x program length 0..42 x {bech32, bech32m} x {lower, upper, mixed case} x 11 networks (family segwit.grid)")
-		c.Family("addr.mutate", c.N(6000, 1000000), famAddrMutate(c))
-		c.Family("script.computepk", c.N(1500, 150000), famComputePkScript(c))
-		c.Family("wif", c.N(1100, 110000), famWIF(c))
-		c.Family("bip32", c.N(660, 66000), famBIP32(c))
-		c.Family("taproot", c.N(400, 40000), famTaproot(c))
+		c.Family("addr.mutate", c.N(6000, 60000), famAddrMutate(c))
+		c.Family("script.computepk", c.N(1500, 15000), famComputePkScript(c))
+		c.Family("wif", c.N(1100, 11000), famWIF(c))
+		c.Family("bip32", c.N(660, 6600), famBIP32(c))
+		c.Family("taproot", c.N(400, 4000), famTaproot(c))
 
 		c.Require("calibrate.base58", 20)
 		c.Require("calibrate.bech32", 50)
